@@ -40,15 +40,17 @@ CLAIMS = {
     "C02": dict(
         text="Theorems for all kernels: per-instruction feasibility (C01) makes the kernel totals a feasible schedule of all micro-ops "
              "(kernel_feasible), and a feasible schedule never undercuts max_S confined(S)/|S| by more than its slack "
-             "(lowerBound_le_max, pigeonhole). The 0.15 clause is decided exhaustively on the property's 5355-kernel family by "
+             "(lowerBound_le_max, pigeonhole). That number is proved to BE the exact optimum of fractional scheduling "
+             "(Props/C02Duality: assignment_feasible, optimum_attained via Hall's theorem on cycle units, optimum_eq_lowerBound, "
+             "feasible_ge_optimum: every eps-feasible vector has a port carrying at least the optimum minus eps). The 0.15 clause is decided exhaustively on the property's 5355-kernel family by "
              "executing the real code against the Lean Spec optimum; 'optimised <= uniform': transfers_bottleneck_mono (any number of "
              "guarded INC transfers does not raise the rounded bottleneck, under the decidable no-tie hypothesis, with a proved "
              "counterexample without it) plus the same family and random kernels.",
         design="5/C02",
-        note=COMMON_NOTE + "Optimum = max_S confined(S)/|S| as the property defines it (LP duality not proved). 'optimised <= uniform' "
+        note=COMMON_NOTE + "Optimum = max_S confined(S)/|S|, proved equal to the minimum over all fractional assignment matrices (fractional Hall / Gale supply-demand, Lemmas/Duality.lean). 'optimised <= uniform' "
              "on rounded sums is checked on executions, proved only for exact sums (transfer_max_le). Known finding: second pass on "
              "multi-micro-op kernels outside the family.",
-        technique="Lean 4 proof (feasibility algebra, pigeonhole) + bounded-exhaustive execution of the real code against the Lean Spec",
+        technique="Lean 4 proof (feasibility algebra, pigeonhole, LP duality via Hall's marriage theorem) + bounded-exhaustive execution of the real code against the Lean Spec",
     ),
     "C15": dict(
         text="Per shipped model a kernel-decided theorem (regenerated from the YAML on every run) that every micro-op list, "
